@@ -11,6 +11,9 @@ LABRUN_NOTE = ('Trusted: TLC; the hook placement of DESIGN 6.1 (events are emitt
                'the universe task types of lv/universe; bounded model (3-4 tasks, <= 3 types); R2 executes worker '
                'thunks at process start on virtual processes, R3 samples real processes.')
 
+SAVE_NOTE = ('Trusted: TLC; pickle/json/sha1; the kernel decides which buffered bytes survive a kill (half-writes are forced '
+             'explicitly); injection happens at the Storage API / IO object level and at executed labtech lines.')
+
 CHECKS = {
     'C01': ('LabRunAbs C01_Keys/C01_Values/C01_Digest: TLC checks them on LabRun (all DAGs on 3 tasks x request lists x '
             'cache pre-states x backends x worker counts) through the refinement mapping, then every execution of the real '
@@ -28,6 +31,12 @@ CHECKS = {
             'both continue_on_failure values; model-checked, then monitored on real executions on all three backends.', '7 C10'),
     'C11': ('Safety C11_NoIdleWait / C11_NoSpin (monitor) plus TLC liveness <>Terminated under fairness on LabRun; hangs of '
             'the real code are decided from the coordinator\'s own poll events, not from clocks.', '7 C11'),
+    'C12': ('SaveProtocol NoPoison after every single Raise: TLC model-checks the save protocol (first save, overwrite); on the '
+            'code, the k-th storage/IO operation and the k-th executed line of the save path raise, for every k, over result '
+            'shapes x cache formats x first/overwrite x providers; SaveProtocol!ObsPoison judges what a later Lab observes.', '7 C12'),
+    'C13': ('SaveProtocol NoPoison after every single Kill: same model; on the code a real worker process kills itself at the '
+            'k-th operation / line / half-way through a write (with and without flush), SIGKILL and SIGTERM, fork and spawn; a '
+            'later Lab observes is_cached / cached_tasks / load / re-run.', '7 C13'),
     'C14': ('LabRunAbs C14_ExitClass/NoStartAfterInterrupt/RunningFinish/RunningCached/CacheConsistent with 0-2 interrupts at every '
             'coordinator location of LabRun; on the code: KeyboardInterrupt injected at every line boundary of serial runs '
             '(exhaustive), sampled boundaries and double interrupts on virtual processes, TLC-placed interrupts, and real '
@@ -55,10 +64,12 @@ def main():
             'thorough_cmd': f'./check {pid} --tier thorough',
             'evidence_file': f'/verif/evidence/{pid}.json',
             'replay_cmd_template': './check --replay {path}',
-            'engine': 'tlc-labrun',
+            'engine': 'tlc-save' if pid in ('C12', 'C13') else 'tlc-labrun',
             'level_claimed': {'category': 'model_checking', 'text': text, 'design_ref': f'DESIGN.md section {ref}'},
-            'level_note': LABRUN_NOTE,
-            'technique': 'explicit TLA+ spec (LabRunAbs/LabRun) model-checked with TLC + trace validation of real executions against the property-level spec, schedules generated by TLC',
+            'level_note': SAVE_NOTE if pid in ('C12', 'C13') else LABRUN_NOTE,
+            'technique': ('explicit TLA+ spec (SaveProtocol) model-checked with TLC + exhaustive fault/crash injection into the real save, observations judged by the spec (SaveObs)'
+                          if pid in ('C12', 'C13') else
+                          'explicit TLA+ spec (LabRunAbs/LabRun) model-checked with TLC + trace validation of real executions against the property-level spec, schedules generated by TLC'),
         })
     m = {
         'version': 1,
@@ -67,7 +78,9 @@ def main():
                   'enable': 'set LABTECH_VERIF_TRACE=mem (in-process sink) or =<file> before importing labtech; the rigs do this in their own subprocesses',
                   'baseline_off_cmd': 'cd /repo && /venv/bin/python -m pytest -ra -q -p no:cacheprovider --timeout=900 --continue-on-collection-errors',
                   'source_commits': hook_commits, 'add_only': True},
-        'engines': [{'name': 'tlc-labrun', 'path': '/verif/spec/LabRun.tla', 'serves_properties': sorted(CHECKS),
+        'engines': [{'name': 'tlc-save', 'path': '/verif/spec/SaveProtocol.tla', 'serves_properties': ['C12', 'C13'],
+                     'kind_free_text': 'TLC 1.8 on SaveProtocol/SaveObs; lv/rigs/savefault.py injects faults and crashes into the real save'},
+                    {'name': 'tlc-labrun', 'path': '/verif/spec/LabRun.tla', 'serves_properties': sorted(p for p in CHECKS if p not in ('C12', 'C13')),
                      'kind_free_text': 'TLC 1.8 on explicit TLA+ specifications; Python rigs drive /repo along TLC behaviours and record traces'}],
         'checks': checks,
         'notes': 'see DESIGN.md; known findings and fixed defects in known_findings.json',
